@@ -127,7 +127,7 @@ def run(report):
         return [(cc, (z3.If(has, z3.Concat(c_, z3.StringVal("_"), s_.val), c_), z3.If(has, z3.Concat(l_, z3.StringVal("_{"), s_.val, z3.StringVal("}")), l_)))]
 
     src_name, src_latex, src_dim = z3.String("source_display_name"), z3.String("source_display_latex"), z3.Const("source_dimension", M.Dim)
-    SRC_ASSUME = {"positive": True, "real": True}
+    SRC_ASSUME = {"positive": True, "real": True, "zero": False, "commutative": True}  # facts that hold AND facts that do not
     source = Obj("Symbol", {"display_name": src_name, "display_latex": src_latex, "dimension": src_dim, "assumptions0": dict(SRC_ASSUME)})
     dsym, dlat, subs = opt_str("display_symbol"), opt_str("display_latex"), opt_str("subscript")
     has_sub = z3.And(z3.Not(subs.is_none), z3.Length(subs.val) > 0)
@@ -313,6 +313,10 @@ def run(report):
     bounded_aliasing(report)
 
 
+# source assumption sets for the executable clone contract: facts that hold and facts that do not
+CLONE_FACTS = [{"positive": True}, {"positive": False}, {"zero": False, "real": True}, {"integer": False}, {"nonnegative": False, "real": True}, {"real": False}, {}]
+
+
 def _clone_conc(fn, passed):
     def conc(model, name):
         script = (
@@ -325,7 +329,12 @@ def _clone_conc(fn, passed):
                "clone_as_indexed": "c = clone_as_indexed(src, **kw)\nname, latex, asm = c.display_name + '_0', c.display_latex + '_{0}', c.assumptions0\n"}[fn] +
             "assert c.dimension == src.dimension, ('dimension', c.dimension)\n"
             "assert name == 'm_0' and latex == '\\\\mu_{0}', (name, latex)\n"
-            + ("assert asm.get('negative') is True, asm\n" if passed else "assert asm.get('positive') is True, ('source assumptions not kept', asm)\n"))
+            + ("assert asm.get('negative') is True, asm\n" if passed else "assert asm.get('positive') is True, ('source assumptions not kept', asm)\n")
+            + ("" if passed or fn == "clone_as_function" else
+               "for facts in " + repr(CLONE_FACTS) + ":\n"
+               "    s2 = Symbol('m', units.mass, **facts)\n"
+               + ("    c2 = clone_as_symbol(s2)\n" if fn == "clone_as_symbol" else "    c2 = clone_as_indexed(s2)\n") +
+               "    assert c2.assumptions0 == s2.assumptions0, ('clone does not carry the assumptions of its source', facts, s2.assumptions0, c2.assumptions0)\n"))
         return try_replay(script)
     return conc
 
@@ -382,6 +391,34 @@ def bounded_aliasing(report):
     count += 2
     if i1 == i2 or objs[0] in i1[1].free_symbols:
         failures.append({"name": "C09/bounded/indexed-clones-alias", "detail": f"{i1!r} {i2!r}", "replay": {"reproduced": True, "script": None}})
+    # assumptions carried by False facts survive a clone
+    for facts in CLONE_FACTS:
+        nz = Symbol("n", units.length, **facts)
+        for cl in (clone_as_symbol(nz, subscript="1"), clone_as_indexed(nz)):
+            count += 1
+            if cl.assumptions0 != nz.assumptions0:
+                failures.append({"name": "C09/bounded/clone-loses-assumptions", "detail": f"{facts}: {nz.assumptions0} -> {cl.assumptions0}", "replay": {"reproduced": True, "script": None}})
+    # creation histories that run partly in another thread (joined: no race) still yield distinct objects
+    import threading
+    made = []
+
+    def worker():
+        made.extend([Symbol("x", units.length), Quantity(7 * units.meter), Function("x", [objs[0]], units.length), CoordinateSystem()])
+    before = [Symbol("x", units.length), Quantity(5 * units.meter), Function("x", [objs[0]], units.length), CoordinateSystem()]
+    th = threading.Thread(target=worker)
+    th.start()
+    th.join()
+    count += 4
+    if len(made) == 4:
+        names = lambda o: getattr(o, "name", None) if not isinstance(o, CoordinateSystem) else str(o.coord_system)
+        # every name handed out earlier in this process: the library's own symbols and constants (created at import time) and ours
+        import symplyphysics.symbols as LS
+        import symplyphysics.quantities as LQ
+        used = {str(getattr(o, "name", "")) for mod in [LS] + [getattr(LS, m) for m in dir(LS) if not m.startswith("_")] for o in vars(mod).values() if isinstance(o, (Symbol, Quantity))}
+        used |= {str(getattr(o, "name", "")) for o in vars(LQ).values() if isinstance(o, Quantity)} | {str(names(o)) for o in objs + fns + before}
+        if any(names(a) == names(b) for a, b in zip(before, made)) or any(str(names(o)) in used for o in made[:3]) or before[1].scale_factor != 5:
+            failures.append({"name": "C09/bounded/objects-created-in-another-thread-alias-earlier-ones", "detail": str([(names(a), names(b)) for a, b in zip(before, made)]),
+                             "replay": {"reproduced": True, "script": None}})
     cs = [CoordinateSystem() for _ in range(4)]
     for a, b in itertools.combinations(cs, 2):
         count += 1
